@@ -80,6 +80,8 @@ class IntervalGrader(SingleListGrader):
             # Subgrader default is set to NumericalGrader(tolerance=1e-13, allow_inf=True)
             # in initialization
             Required('subgrader', default=None): Any(FormulaGrader, None),
+            # The separator between the two endpoints is a single character
+            Required('delimiter', default=','): All(str, Length(min=1, max=1)),
             Required('opening_brackets', default='[('): All(str, Length(min=1)),
             Required('closing_brackets', default='])'): All(str, Length(min=1))
         })
